@@ -402,7 +402,7 @@ def main():
     distinct = sum(r.get("distinct_nontrivial", 0) for _, r in results)
     samples = []
     for _, r in results:
-        samples += r.get("samples", [])[:2]
+        samples += (r.get("samples") or [])[:2]
     hist = {}
     for e, r in results:
         for k, v in r.get("histogram", {}).items():
